@@ -22,7 +22,7 @@ impl Check for C06 {
         proptest::strategy::Union::new(vec![ana_strategy(tier, true), ana_strategy(tier, false)]).boxed()
     }
     fn cases(&self, tier: Tier) -> u32 {
-        tier.pick(5000, 100000)
+        tier.pick(15000, 250000)
     }
     fn run(&self, case: &AnaCase, st: &mut Stats) -> Verdict {
         let gc = match transformed(&case.grammar) {
